@@ -11,7 +11,7 @@ import coregen as cg
 from props import C06 as c06
 
 PROP = 'C10'
-LEAN_TARGETS = ['MorphKgc.Props.C10']
+LEAN_TARGETS = ['MorphKgc.Props.C10', 'MorphKgc.Props.C10Now']
 GEN_KEYS = ['source', 'null']
 M = 'MorphKgc.Props.C10'
 THEOREMS = [{'name': f'Props.C10.{n}', 'module': M} for n in [
@@ -23,6 +23,8 @@ THEOREMS = [{'name': f'Props.C10.{n}', 'module': M} for n in [
     'C10_extension_table', 'C10_tsv_reader', 'C10_source_type_branches',
     'C10_sql_ansi_text', 'C10_dialect_styles', 'C10_sql_query_sent', 'C10_sql_ident_survives',
 ]]
+# hypothesis-free theorems of the repaired shapes the translator reads from /repo now (Props/C10Now.lean)
+THEOREMS += [{'name': f'Props.C10.{n}', 'module': 'MorphKgc.Props.C10Now'} for n in ['C10_current_frame_strip', 'C10_F1_current']]
 RULE = ('one random table of strings (2-4 columns, 0-6 rows; cells from: empty, NULL, leading/trailing/only blanks, quotes, separators, tabs, CR/LF, '
         'leading zeros, true/None/nan/NULL/NA, 1.0/1e5, dates, non-BMP, markup, random strings over a nasty alphabet) rendered into every available '
         'source kind: (direct oracle) by PYTHON-side writers (csv module, json.dumps, hand-written XML, sqlite3, pandas/pyarrow/openpyxl) -> one '
